@@ -31,13 +31,19 @@ where
 
     fn patch(&self, new: Self::Value) {
         let path = self.path().into_iter().collect::<StorePath>();
+        // notify once the write guard is gone: a subscriber that runs synchronously
+        // (an `ImmediateEffect`) reads the store while it is being notified
+        let mut changed = Vec::new();
         if let Some(mut writer) = self.writer() {
             // don't track the writer for the whole store
             writer.untrack();
             let mut notify = |path: &StorePath| {
-                self.triggers_for_path(path.to_owned()).notify();
+                changed.push(path.to_owned());
             };
             writer.patch_field(new, &path, &mut notify);
+        }
+        for path in changed {
+            self.triggers_for_path(path).notify();
         }
     }
 }
